@@ -82,10 +82,16 @@ def unit(job, variant, pi, seed, quick, plan_len):
             if key in seen_ckpt:
                 continue
             seen_ckpt.add(key)
-            again = Checkpoint(store_ckpt=d).restore().save()
-            via_json = Checkpoint(store_ckpt=json.loads(json.dumps(d))).restore().save()
             for addr, ent in d.items():
                 out["entity"][ent["cls"]] = out["entity"].get(ent["cls"], 0) + 1
+            try:
+                again = Checkpoint(store_ckpt=d).restore().save()
+                via_json = Checkpoint(store_ckpt=json.loads(json.dumps(d))).restore().save()
+            except Exception as e:
+                out["failing"].append({"kind": "checkpoint-cannot-be-restored", "job": job, "clock": pl.clock,
+                                       "error": f"{type(e).__name__}: {str(e)[:300]}",
+                                       "plan": [command_text(c) for c in cmds]})
+                continue
             if again != d or via_json != d:
                 bad = [k for k in d if again.get(k) != d[k] or via_json.get(k) != d[k]]
                 out["failing"].append({"kind": "checkpoint-roundtrip", "job": job, "entities": bad[:5],
